@@ -29,6 +29,8 @@ type Outcome struct {
 	TraceHash  uint64         `json:"trace_hash"`
 	ProgHash   uint64         `json:"prog_hash"`
 	NonTrivial bool           `json:"nontrivial"`
+	CaseHashes []uint64       `json:"case_hashes,omitempty"` // per-case distinctness hashes when one run enumerates many cases
+	Evals      int            `json:"evals,omitempty"`       // cases evaluated by this run (0: the run is one case)
 	Sample     any            `json:"sample,omitempty"`
 	Log        []string       `json:"log,omitempty"`
 	Porcupine  [3]int         `json:"porcupine,omitempty"` // ok, illegal, unknown
